@@ -638,7 +638,9 @@ func (w *SrvWorld) closeServer() {
 func (w *SrvWorld) finish() {
 	if len(w.Real) > 0 {
 		w.checkE2E()
+		w.checkE2ETCP()
 		for _, rc := range w.Real {
+			w.closeRealTCP(rc)
 			w.e2eMu.Lock()
 			relay, cli, closed := rc.Relay, rc.Cli, rc.Closed
 			w.e2eMu.Unlock()
